@@ -178,7 +178,8 @@ def _raised_by_real_code(e) -> bool:
     if inner.startswith(_REPO):
         return True
     if in_repo and isinstance(e, (ValueError, IndexError, KeyError, ZeroDivisionError)) and (
-            inner.endswith("svx/field.py") or inner.endswith("svx/kernel.py") or inner.endswith("svx/symnp.py")):
+            inner.endswith("svx/field.py") or inner.endswith("svx/kernel.py") or inner.endswith("svx/symnp.py")
+            or "/site-packages/numpy/" in inner):
         return True
     return False
 
